@@ -30,6 +30,8 @@ pub enum Acc {
     GetRaw,
     Contains,
     Clear,
+    /// workload-only clause: parse one candidate string with this argument's value parser in isolation
+    Lang,
 }
 
 #[derive(Clone, Copy, Debug, Hash, Serialize, Deserialize, PartialEq, Eq)]
@@ -60,6 +62,9 @@ pub struct AOp {
     pub id: IdSel,
     /// None = the argument's own type; Some(t) = ask for type t (may be wrong)
     pub ask: Option<Ty>,
+    /// candidate raw value for `Acc::Lang`
+    #[serde(default)]
+    pub cand: Option<B>,
 }
 
 #[derive(Clone, Debug, Hash, Serialize, Deserialize, PartialEq)]
@@ -194,7 +199,7 @@ macro_rules! typed_access {
                 Ok(None) => Got::NoneV,
                 Err(e) => Got::Err(err_kind(&e)),
             },
-            _ => unreachable!(),
+            _ => Got::NoneV,
         }
     };
 }
@@ -291,8 +296,21 @@ impl Engine for AccessSim {
                     _ => IdSel::Arg(rng.below(16) as u8),
                 },
                 ask: if rng.chance(2, 5) { Some(*rng.pick(&[Ty::Str, Ty::Os, Ty::Path, Ty::I64, Ty::U16, Ty::U8, Ty::Bool])) } else { None },
+                cand: None,
             })
             .collect();
+        let mut ops: Vec<AOp> = ops;
+        // language probes on boundary candidates (root-level arguments)
+        for _ in 0..rng.usize(4) {
+            if spec.args.is_empty() {
+                break;
+            }
+            let k = rng.below(16) as u8;
+            let a = &spec.args[k as usize % spec.args.len()];
+            let cand = lang_candidate(rng, a);
+            let at = rng.usize(ops.len() + 1);
+            ops.insert(at, AOp { on_clone: false, acc: Acc::Lang, id: IdSel::Arg(k), ask: None, cand: Some(cand) });
+        }
         C04Sc { spec, argv, depth: rng.below(3) as u8, ops }
     }
     fn exec(&self, sc: &C04Sc, log: &mut Log) -> Outcome {
@@ -336,6 +354,80 @@ impl Engine for AccessSim {
             c.push(s);
         }
         c
+    }
+}
+
+fn lang_candidate(rng: &mut Rng, a: &ArgSpec) -> B {
+    let flip_case = |s: &str, rng: &mut Rng| -> String { s.chars().map(|c| if rng.coin() { c.to_ascii_uppercase() } else { c.to_ascii_lowercase() }).collect() };
+    match &a.parser {
+        ValParser::I64 { lo, hi } => {
+            let (lo, hi) = (*lo as i128, *hi as i128);
+            let n = *rng.pick(&[lo, hi, lo - 1, hi + 1, 0, -1, 1, i64::MAX as i128, i64::MAX as i128 + 1, i64::MIN as i128, i64::MIN as i128 - 1, u64::MAX as i128, 1i128 << 70]);
+            match rng.below(8) {
+                0 => B::s(&format!("+{n}")),
+                1 => B::s(&format!("00{n}")),
+                2 => B::s(&format!(" {n}")),
+                3 => B::s(&format!("{n} ")),
+                4 => B::s(*rng.pick(&["", "-", "+", "0x10", "1e3", "1_000", "\u{661}", "--5", "5.0"])),
+                5 => B(vec![b'1', 0xff]),
+                _ => B::s(&n.to_string()),
+            }
+        }
+        ValParser::U16 => B::s(*rng.pick(&["0", "65535", "65536", "-0", "-1", "+7", "007", "", "1e2", " 1"])),
+        ValParser::Bool => B::s(*rng.pick(&["true", "false", "TRUE", "True", "t", "f", "1", "0", "yes", "", " true"])),
+        ValParser::Boolish => B::s(*rng.pick(&["y", "YES", "t", "True", "ON", "1", "n", "No", "F", "false", "oFF", "0", "2", "maybe", "", "on "])),
+        ValParser::Possible(pvs) => {
+            let p = rng.pick(pvs);
+            let base = if !p.aliases.is_empty() && rng.coin() { p.aliases[0].clone() } else { p.name.clone() };
+            match rng.below(6) {
+                0 => B::s(&flip_case(&base, rng)),
+                1 => B::s(&base.to_uppercase()),
+                2 => B::s(&base[..base.len() - 1]),
+                3 => B::s(&format!("{base}x")),
+                4 => B::s(""),
+                _ => B::s(&base),
+            }
+        }
+        _ => B::s(*rng.pick(&["v", "", "-x", "a b"])),
+    }
+}
+
+/// One candidate against one argument's value parser in isolation (a fresh single-argument command):
+/// accepted iff the independent reading admits it, and then the typed value equals that reading.
+fn lang_probe(a: &ArgSpec, cand: &B) -> Option<String> {
+    if !a.action.takes_values() {
+        return None;
+    }
+    let mut iso = ArgSpec::new("probe", Action::Set);
+    iso.long = Some("probe".into());
+    iso.parser = a.parser.clone();
+    iso.ignore_case = a.ignore_case;
+    let spec = CmdSpec { name: "prog".into(), args: vec![iso.clone()], ..Default::default() };
+    let mut cmd = build_cmd(&spec);
+    let mut tok = b"--probe=".to_vec();
+    tok.extend_from_slice(&cand.0);
+    let argv = vec![OsString::from("prog"), B(tok).os()];
+    let r = match catch(|| cmd.try_get_matches_from_mut(argv)) {
+        Ok(r) => r,
+        Err(p) => return Some(format!("parsing candidate {} for {:?} panicked: {} at {}", cand.esc(), a.parser, p.msg, p.loc)),
+    };
+    let ty = ty_of(&iso)?;
+    let want = if crate::c06::value_ok(&iso, &cand.0).is_ok() { canonical(&iso, ty, &cand.0) } else { None };
+    match (r, want) {
+        (Ok(mut m), Some(w)) => match access(&mut m, Acc::GetOne, "probe", ty) {
+            Got::One(g) if g == w => None,
+            Got::One(g) => Some(format!("candidate {} for {:?}: typed value {g}, an independent reading gives {w}", cand.esc(), a.parser)),
+            _ => Some(format!("candidate {} for {:?}: accepted but no typed value", cand.esc(), a.parser)),
+        },
+        (Ok(_), None) => Some(format!("candidate {} is accepted by {:?} (ignore_case={}) but is outside the specified language", cand.esc(), a.parser, a.ignore_case)),
+        (Err(e), Some(w)) => Some(format!("candidate {} is inside the language of {:?} (ignore_case={}, reads as {w}) but is rejected with {:?}", cand.esc(), a.parser, a.ignore_case, e.kind())),
+        (Err(e), None) => {
+            if matches!(e.kind(), clap::error::ErrorKind::InvalidValue | clap::error::ErrorKind::ValueValidation | clap::error::ErrorKind::InvalidUtf8) {
+                None
+            } else {
+                Some(format!("candidate {} for {:?}: rejected with {:?}, which is not a value error", cand.esc(), a.parser, e.kind()))
+            }
+        }
     }
 }
 
@@ -424,6 +516,21 @@ fn exec_access(sc: &C04Sc, log: &mut Log, out: &mut Outcome) {
             },
             IdSel::External => (String::new(), None),
         };
+        if op.acc == Acc::Lang {
+            if let (IdSel::Arg(k), Some(cand)) = (op.id, &op.cand) {
+                if !sc.spec.args.is_empty() {
+                    let a = &sc.spec.args[k as usize % sc.spec.args.len()];
+                    out.comparisons += 1;
+                    out.count("op.language_probe");
+                    if let Some(d) = lang_probe(a, cand) {
+                        out.violate("language-differs", format!("{:?}", a.parser).split(|c: char| !c.is_alphanumeric()).next().unwrap_or("").to_string(), format!("op {i}: {d}"));
+                        return;
+                    }
+                    ev!(log, "op {i}: language probe {} <- {}", a.id, cand.esc());
+                }
+            }
+            continue;
+        }
         let own = arg.and_then(|a| ty_of(a));
         let ask = op.ask.or(own).unwrap_or(Ty::Str);
         shape.add(op.acc as u64 * 8 + ask as u64);
